@@ -10,6 +10,7 @@ git -C /repo worktree add -q --detach "$wt" e82b159 || exit 2
 cp /repo/Cargo.lock "$wt/"
 cd "$wt"
 export CARGO_NET_OFFLINE=true
+export CARGO_TARGET_DIR=${CM_TARGET:-/tmp/cm/target0}
 demo_cmd=$(grep -oE 'cargo test -p [a-z-]+ [^`]*--test [A-Za-z0-9_]+' "$src/README.md" | head -1)
 [ -z "$demo_cmd" ] && demo_cmd=$(grep -oE 'cargo test[^`]*' "$src/README.md" | head -1)
 res_a=unknown; res_b=unknown; res_c=unknown; build_default=unknown
